@@ -179,6 +179,44 @@ fn check_type(ty: SignType, name: &str, expect: Option<(u8, u8, u32, u32)>, rep:
             }
         }
     }
+    // ... and a block the decoder REJECTS (this type's block with an id nobody has) that arrives after this type's block
+    // leaves the sign without a recorded type: what the sign records is the decoding of the last block, not a memory of
+    // an earlier one
+    if block.len() == 16 {
+        let own = 0x0022u16;
+        for bad_id in [0x99u8, 0x00, 0xFF] {
+            let mut bad = block.clone();
+            bad[1] = bad_id;
+            if flipdot_core::SignType::from_bytes(&bad).is_ok() {
+                continue; // happens to be another supported type
+            }
+            for variant in 0..2 {
+                let mut msgs = vec![RefMsg::Request(own, O_RECV_CFG), RefMsg::Data { offset: 0, data: block.clone() }];
+                if variant == 0 {
+                    msgs.push(RefMsg::Count(2));
+                    msgs.push(RefMsg::Request(own, O_RECV_CFG));
+                    msgs.push(RefMsg::Data { offset: 0, data: bad.clone() });
+                    msgs.push(RefMsg::Count(1));
+                } else {
+                    msgs.push(RefMsg::Data { offset: 0, data: bad.clone() });
+                    msgs.push(RefMsg::Count(2));
+                }
+                let mut pair = Pair::new(own, false);
+                let mut panicked = false;
+                for m in &msgs {
+                    if vsx::step(&mut pair, m).panic.is_some() {
+                        panicked = true;
+                        break;
+                    }
+                }
+                rep.count("virtual_sign_unsupported_block_after_supported");
+                if panicked || pair.sign.sign_type().is_some() {
+                    let what = format!("after this type's block and then a block with unsupported id {:02X} ({}), the virtual sign records type {:?}{}", bad_id, if variant == 0 { "retry after a failed transfer" } else { "same transfer" }, pair.sign.sign_type(), if panicked { " (panicked)" } else { "" });
+                    rep.violation(MON_T, "virtual_sign_keeps_type_after_unsupported_block", &format!("{}:{:02X}:{}", name, bad_id, variant), format!("{}: {}", name, what), J::obj(vec![("type", J::s(name)), ("unsupported_block", J::hex(&bad)), ("history", J::Arr(msgs.iter().map(|m| J::s(m.show())).collect())), ("observed", J::s(what.clone()))]));
+                }
+            }
+        }
+    }
     rep.count("types_checked");
     rep.sample_always(J::obj(vec![("type", J::s(name)), ("block", J::hex(&block)), ("dimensions", J::s(format!("{}x{}", w, h)))]));
 }
@@ -294,6 +332,7 @@ pub fn run(ctx: &Ctx) -> Outcome {
         floor("all 65536 (family, id) pairs swept", report.get("pairs_swept") == 65_536, report.get("pairs_swept")),
         floor("every length 0..=40", report.set_len("lengths") == 41, report.set_len("lengths")),
         floor("listed pairs accepted and unlisted pairs rejected", report.get("accepted_listed") >= 11 * 8 && report.get("rejected_unlisted") > 500_000, report.get("accepted_listed")),
+        floor("an unsupported block after a supported one, for every type", report.get("virtual_sign_unsupported_block_after_supported") >= 44, report.get("virtual_sign_unsupported_block_after_supported")),
         floor("virtual sign reconfigured from every other type (11 x 10 x 2 histories)", report.get("virtual_sign_reconfigurations") == 220, report.get("virtual_sign_reconfigurations")),
         floor("virtual sign configured with every type's block", report.get("virtual_sign_configurations") >= 11, report.get("virtual_sign_configurations")),
     ];
